@@ -73,6 +73,7 @@ def run_case(ctx, pdb2sql, case):
         mp = gen_complex.write_pdb(os.path.join(ctx.scratch, 'mob.pdb'), mobile_atoms)
         d0 = set(os.listdir('.'))
         tdb = pdb2sql.pdb2sql(tp); mdb = pdb2sql.pdb2sql(mp)
+        t_text = open(tp).read()
     else:
         tdb = make_db(pdb2sql, target_atoms)
         mdb = make_db(pdb2sql, mobile_atoms, case.get('mobile_exact'))
@@ -80,7 +81,14 @@ def run_case(ctx, pdb2sql, case):
     sup.get_rotation_matrix = wrapper
     try:
         try:
-            ret = pdb2sql.superpose(mdb, tdb, method=case['method'], only_backbone=case['only_backbone'], export=case['export'], **kwargs)
+            if use_paths and case.get('by_path'):
+                # mobile and target given as file names (always the same two names, rewritten for every case of the run)
+                ret = pdb2sql.superpose(mp, tp, method=case['method'], only_backbone=case['only_backbone'], export=case['export'], **kwargs)
+                mdb._close(); mdb = ret
+                if open(tp).read() != t_text:
+                    raise AssertionError('the target FILE was modified')
+            else:
+                ret = pdb2sql.superpose(mdb, tdb, method=case['method'], only_backbone=case['only_backbone'], export=case['export'], **kwargs)
             err = None
         except Exception as e:
             ret, err = None, exc_class(e) + ': ' + str(e)[:200]
@@ -104,8 +112,11 @@ def run_case(ctx, pdb2sql, case):
         k2['name'] = ['CA', 'C', 'N', 'O']
     sm, st = sel_filter(m_before, k2), sel_filter(t_before, k2)
     R = rec.get('R')
+    kernel_called = R is not None
     if R is None:
-        return out, ('impl_vs_spec', dict(why='rotation kernel was not called'))
+        # the library did not ask the kernel for a rotation (allowed only if leaving the mobile where it is IS optimal):
+        # judge the outcome as the identity motion; there is nothing to feed the model with, so the tie is skipped
+        R = np.eye(3)
     Rq = [[Fraction(float(R[i][j])) for j in range(3)] for i in range(3)]
     reqs = [['superpose.model', Rq, m_before, sm, st], ['spec.superpose.shared_pairs', sm, st],
             ['spec.superpose.is_rotation', Fraction(1, 10**9), Rq], ['superpose.paired', sm, st]]
@@ -162,6 +173,8 @@ def run_case(ctx, pdb2sql, case):
         if len(newfiles) != 1 or not newfiles[0].endswith('_superposed_on_tgt.pdb'):
             return out, ('impl_vs_spec', dict(why='export=True must write exactly one file, the requested export', files=newfiles))
     # --- tie: implementation against the model ---
+    if not kernel_called:
+        return out, None
     nm = [[Q(x) for x in v] for v in new_model]
     if len(nm) != len(new_impl) or any(abs(float(a[i]) - float(b[i])) > 1e-8 * scale for a, b in zip(nm, new_impl) for i in range(3)):
         return out, ('impl_vs_model', dict(why='coordinates differ from the model fed with the recorded rotation'))
@@ -173,7 +186,27 @@ def gen_case(rng):
     mobile = [dict(a) for a in target]
     case = {'method': rng.choice(['svd', 'quaternion']), 'only_backbone': rng.random() < 0.6, 'export': rng.random() < 0.2}
     k = rng.random()
-    if k < 0.3:
+    if k < 0.08 and not case['export']:
+        # far from the origin, displaced only slightly: a structure around (5000, 5000, 5000) rotated by ~1e-3 rad about
+        # its centroid and shifted by ~0.01 A must still be brought back onto the target
+        off = [rng.uniform(3000, 8000) for _ in range(3)]
+        for a in target:
+            for c, o in zip('xyz', off):
+                a[c] = round(a[c] + o, 3)
+        mobile = [dict(a) for a in target]
+        cen = [sum(a[c] for a in mobile) / len(mobile) for c in 'xyz']
+        ax = [rng.gauss(0, 1) for _ in range(3)]; nrm = math.sqrt(sum(x * x for x in ax)); ax = [x / nrm for x in ax]
+        ang = rng.uniform(5e-4, 1.5e-3); ca, sa = math.cos(ang), math.sin(ang)
+        R = [[ca + ax[i] * ax[j] * (1 - ca) if i == j else ax[i] * ax[j] * (1 - ca) + sa * (0, -ax[2], ax[1], ax[2], 0, -ax[0], -ax[1], ax[0], 0)[3 * i + j]
+              for j in range(3)] for i in range(3)]
+        t = [rng.uniform(-0.01, 0.01) for _ in range(3)]
+        ex = []
+        for a in mobile:
+            v = [a[c] - cen[i] for i, c in enumerate('xyz')]
+            ex.append([sum(R[i][j] * v[j] for j in range(3)) + cen[i] + t[i] for i in range(3)])
+        case['mobile_exact'] = ex
+        feats.add('far-from-origin-small-displacement')
+    elif k < 0.3:
         R = gen_complex.rand_rotation(rng); t = [rng.uniform(-20, 20) for _ in range(3)]
         moved = gen_complex.apply_motion(mobile, R, t, ndigits=None)
         case['mobile_exact'] = [[a['x'], a['y'], a['z']] for a in moved]
@@ -200,6 +233,17 @@ def gen_case(rng):
     sel = rng.choice([{}, {'chainID': 'A'}, {'chainID': 'B'}, {'chainID': ['A', 'B']}])
     if not case['only_backbone'] and rng.random() < 0.5:
         sel = dict(sel); sel['name'] = rng.choice([['CA'], ['CA', 'CB', 'N'], ['N', 'CA', 'C', 'O', 'CB']])
+    if 'mobile-deletion' in feats and rng.random() < 0.4:
+        # a point mutation: one residue of the mobile carries another residue name (its atoms are then NOT the same
+        # atoms as the target's: identity is chain, residue number, residue NAME and atom name)
+        keys = sorted({(a['chainID'], a['resSeq']) for a in mobile})
+        kmut = rng.choice(keys)
+        for a in mobile:
+            if (a['chainID'], a['resSeq']) == kmut:
+                a['resName'] = 'TRP' if a['resName'] != 'TRP' else 'GLY'
+        feats.add('mutated-residue')
+    if case['export'] and rng.random() < 0.6:
+        case['by_path'] = True; feats.add('inputs-by-file-name')
     case.update({'target': target, 'mobile': mobile, 'kwargs': sel})
     feats.add('method-' + case['method'])
     if case['export']: feats.add('export')
